@@ -301,6 +301,68 @@ def judge(case):
             third = makers[case['first']]('C')
             if third.contents.lines:
                 bad('contents-shared-between-objects', f'third renders {str(third)!r}')
+        elif kind == 'rerender':
+            # observe, change the description in place, observe again: every rendering must be the one a FRESH block
+            # built from the current description gives (no rendering may survive a change, none may change the block)
+            from dznpy.scoping import NamespaceIds  # pylint: disable=import-outside-toplevel
+            what = case['what']
+            if what in ('struct', 'class', 'namespace'):
+                mk = {'struct': lambda n, c: G.Struct(n, c), 'class': lambda n, c: G.Class(n, c),
+                      'namespace': lambda n, c: G.Namespace(NamespaceIds([n]), c)}[what]
+                from dznpy.text_gen import TextBlock  # pylint: disable=import-outside-toplevel
+                obj = mk('A', TextBlock(['int a;']))
+                if str(obj) != str(obj) or str(obj) != str(mk('A', TextBlock(['int a;']))):
+                    bad('rendering-not-repeatable', what)
+                for step, line in enumerate(case['lines']):
+                    obj.contents.append(line)
+                    want = str(mk('A', TextBlock(['int a;'] + case['lines'][:step + 1])))
+                    if str(obj) != want or str(obj) != want:
+                        bad('stale-rendering-after-change', f'{what}: step {step}: {str(obj)!r} expected {want!r}')
+                obj.contents = TextBlock(['int z;'])
+                if str(obj) != str(mk('A', TextBlock(['int z;']))):
+                    bad('stale-rendering-after-change', f'{what}: contents replaced: {str(obj)!r}')
+            else:
+                struct = G.Struct('S')
+
+                def fresh(desc):
+                    if what == 'function':
+                        return G.Function(return_type=mk_type(desc['ret']), name=desc['name'], params=mk_params(desc['params']),
+                                          cav=desc['cav'], contents=desc['contents'], override=desc['override'], scope=struct)
+                    if what == 'constructor':
+                        return G.Constructor(struct, params=mk_params(desc['params']), contents=desc['contents'],
+                                             explicit=desc['explicit'])
+                    return G.Destructor(struct, contents=desc['contents'], override=desc['override'])
+                desc = {'ret': RET_TYPES[0], 'name': 'fn', 'params': [], 'cav': '', 'contents': '', 'explicit': False,
+                        'override': False}
+                obj = fresh(desc)
+                for field_, value in case['changes']:
+                    before = (obj.as_decl, obj.as_def, obj.as_decl, obj.as_def)
+                    ref = fresh(desc)
+                    if (str(before[0]), str(before[1])) != (str(ref.as_decl), str(ref.as_def)) or \
+                            (str(before[2]), str(before[3])) != (str(ref.as_decl), str(ref.as_def)):
+                        bad('rendering-not-repeatable', f'{what} {desc}')
+                    if field_ == 'params':
+                        desc = dict(desc, params=value)
+                        if what == 'destructor':
+                            continue
+                        obj.params = mk_params(value)
+                    elif field_ == 'params-append':
+                        if what == 'destructor':
+                            continue
+                        nold = len(desc['params'])
+                        desc = dict(desc, params=desc['params'] + value)
+                        obj.params.extend(mk_params(desc['params'])[nold:])
+                    else:
+                        if not hasattr(obj, field_):
+                            continue
+                        desc = dict(desc, **{field_: value})
+                        setattr(obj, field_, mk_type(value) if field_ == 'ret' else value)
+                        if field_ == 'ret':
+                            obj.return_type = mk_type(value)
+                    ref = fresh(desc)
+                    if (str(obj.as_decl), str(obj.as_def)) != (str(ref.as_decl), str(ref.as_def)):
+                        bad('stale-rendering-after-change', f'{what}: after {field_}={value!r}: decl={str(obj.as_decl)!r} '
+                                                             f'expected {str(ref.as_decl)!r}')
         elif kind == 'helpers':
             from dznpy.scoping import NamespaceIds  # pylint: disable=import-outside-toplevel
             ids, root, name, dflt = case['ids'], case['root'], case['name'], case['default']
@@ -404,6 +466,14 @@ def other_cases():
     for first, second, how in itertools.product(('struct', 'class', 'namespace'), ('struct', 'class', 'namespace'),
                                                 ('append', 'iadd')):
         yield {'kind': 'sharing', 'first': first, 'second': second, 'how': how}
+    for what in ('struct', 'class', 'namespace'):
+        for lines in (['int b;'], ['int b;', '', 'int c;'], ['  indented();', 'x;']):
+            yield {'kind': 'rerender', 'what': what, 'lines': lines}
+    changes = [('name', 'other'), ('params', PARAM_KINDS[:1]), ('params-append', PARAM_KINDS[1:3]), ('cav', 'const'),
+               ('contents', 'return;'), ('explicit', True), ('override', True), ('contents', ''), ('params', [])]
+    for what in ('function', 'constructor', 'destructor'):
+        for perm in itertools.permutations(range(len(changes)), 3):
+            yield {'kind': 'rerender', 'what': what, 'changes': [changes[i] for i in perm]}
 
 
 # ---- compile --------------------------------------------------------------------------------
